@@ -309,6 +309,28 @@ func init() {
 			}
 			c.Count("opener:exhaustive-pass")
 		}
+		// (1a') re-entrant registration: callbacks that call OnPut while they fire (a once-only first-Put hook that
+		// installs a persistent counter and another once hook; the counter installs a further once hook; a
+		// persistent callback that installs a once hook on every Put): every history of length 4 (5 thorough) over
+		// the 8-op alphabet on the default stream configuration, for two registration tables
+		{
+			r := c.R.Fork()
+			opset := c20OpSet(r, false)
+			roots := []cid.Cid{mkCid(1, 0x55, mh.SHA2_256, -1, []byte("root"))}
+			n := 4
+			if c.Thorough {
+				n = 5
+			}
+			for _, tab := range []map[uint64][]dKid{
+				{2: {{8, false}, {9, true}}, 8: {{10, true}}},
+				{1: {{5, true}}, 2: {{8, false}}, 5: {{11, false}}},
+			} {
+				dKids = tab
+				c20Exhaustive(c, r, cfgs[3], roots, opset, n, -1)
+				c.Count("reentrant:exhaustive-pass")
+			}
+			dKids = nil
+		}
 		// (1b) the history of the Coq Examples C20_example_* (proofs/DeferredFacts.v)
 		c20Example(c)
 		// (2) random longer histories: more callbacks, bad keys, option rows, nil / empty / several roots
